@@ -534,9 +534,11 @@ def write_evidence(prop, tier, seed, eng, ordered, wall, nviol, nself,
         "inconclusive_runs": sum(1 for r in ordered
                                  if r["result"] == "inconclusive"),
         "determinism_selfcheck_runs": nself,
-        "determinism_selfcheck": "digest of each sampled run recomputed in a "
-                                 "fresh interpreter with PYTHONHASHSEED=1; "
-                                 "all equal" if nself else "not run",
+        "determinism_selfcheck": ("digest of each sampled run recomputed in a "
+                                  "fresh interpreter with PYTHONHASHSEED=1"
+                                  + (" and python -O" if getattr(
+                                      eng, "FRESH_OPTIMIZE", False) else "")
+                                  + "; all equal") if nself else "not run",
         "real_components": eng.REAL,
         "stub_components": eng.STUB,
         "counters": {k: v for k, v in sorted(stats.items())
